@@ -33,7 +33,7 @@ add("C06", "exploration", "bounded-exhaustive enumeration of the C01-C05 domains
 add("C13", "exploration", "bounded-exhaustive enumeration of the complete temporal domains (v2, v3) and the complete v2 environmental domain with relational oracles",
     "Relations between two scores of the same vector, checked on every vector of the complete finite domains.",
     "Trusted: the harness' reading of the property's four relations.", "6 (C13)", "ENUM")
-add("C14", "exploration", "bounded-exhaustive enumeration: complete temporal-level domains and environmental slices, each view compared with an independent lower-level decode (differential oracle)",
+add("C14", "exploration", "bounded-exhaustive enumeration: complete temporal-level domains and environmental slices, each view compared with an independent lower-level decode (differential oracle); plus short histories (views before decode, instalments, twin objects, refused continuations)",
     "Differential oracle without a hand-written expected value: the embedded view vs a fresh lower-level decode of the projected vector, including the complete private state.",
     "Trusted: reflection-based state dump (mc/internal/dump).", "6 (C14)", "ENUM")
 
@@ -44,14 +44,14 @@ GRAPH_NOTE = "Trusted: the reference recogniser/encoder mc/internal/lang (writte
 add("C01", "model_checking", "explicit-state model checking of the real v3 base decoder over all values (138,240 states, every transition executed on the implementation) with the exact rational score oracle at every accepting transition, plus complete enumeration of the 5,184 vectors through all three decoders",
     "Complete closure: every reachable state of the base decoder over all values and both versions is expanded with every token of the alphabet, so every token order of every valid base vector is a path; the score oracle is exact (big.Rat).",
     GRAPH_NOTE + ENUM_NOTE, "5.2, 6 (C01)", "GRAPH+ENUM")
-add("C07", "model_checking", "explicit-state model checking of the three v3 decoders against a reference recogniser (product of model and implementation, every transition validated on the implementation), plus stateless permutation sets, edit balls and all short byte strings",
+add("C07", "model_checking", "explicit-state model checking of the three v3 decoders against a reference recogniser (product of model and implementation, every transition validated on the implementation), plus stateless permutation sets (incl. complete 22-metric vectors in unusual arrangements), edit balls, all short byte strings, all foreign metric names of 1-3 letters, value lattices, wrapped/decorated inputs, vectors of the other version and second decodes on used decoders",
     "Acceptance is a property of the whole string language; the search executes every (state, token) transition of every expanded decoder state, so longer inputs only revisit explored transitions. Base decoder closed completely; temporal/environmental decoders closed per level over representative lower-level configurations.",
     GRAPH_NOTE, "5.2, 6 (C07)", "GRAPH")
-add("C08", "model_checking", "explicit-state model checking of the three v2 decoders (seen-set x deferred x canonical-order residue) against a reference recogniser, plus group permutations, edit balls and all short byte strings",
+add("C08", "model_checking", "explicit-state model checking of the three v2 decoders (seen-set x deferred x canonical-order residue) against a reference recogniser, plus group permutations, edit balls, all short byte strings, all 194,021 optional-group combinations, all foreign metric names of 1-3 letters, wrapped/decorated inputs and vectors offered in pieces to one decoder",
     "As C07 for v2; the residue additionally tracks whether first occurrences are in canonical order, which is what the decoder's final comparison with its re-encoding depends on.",
     GRAPH_NOTE, "5.2, 6 (C08)", "GRAPH")
 add("C09", "model_checking", "explicit-state model checking of all six decoders with a field-level oracle at every accepting transition and path-independence (same token set => same observables) checked across all explored paths, plus complete enumeration of the temporal-level domains",
-    "Fields are compared with hand-associated library constants at every accepting state; order independence follows from state merging plus the stateless permutation sets; explicit X vs omission compared through a normalised key.",
+    "Fields are compared with hand-associated library constants at every accepting state; order independence follows from state merging plus the stateless permutation sets; explicit X vs omission compared on every vector (all omitted metrics at once) and one metric at a time for every base vector in five contexts; field values re-checked after every query and report.",
     GRAPH_NOTE, "5.2, 6 (C09)", "GRAPH+ENUM")
 add("C10", "model_checking", "explicit-state model checking of all six decoders with the canonical-encoding oracle and decode-encode-decode identity at every accepting transition, plus complete enumeration of the temporal-level domains",
     "The reference encoder computes the canonical text from the token set alone; every accepted string of the graphs, permutation sets and enumerations is compared byte for byte and decoded again.",
@@ -59,7 +59,7 @@ add("C10", "model_checking", "explicit-state model checking of all six decoders 
 add("C11", "model_checking", "explicit-state model checking of all six decoders against a defect classifier (admissible-sentinel sets) on every rejecting transition, plus a constructed single-defect catalogue, edit balls and all short byte strings",
     "Every rejected string must match exactly one exported sentinel and that sentinel must name a defect the reference finds in the input; single-defect inputs have singleton sets, so the reported kind is pinned exactly.",
     GRAPH_NOTE, "5.2, 6 (C11)", "GRAPH")
-add("C12", "model_checking", "explicit-state model checking of all six decoders for totality (no panic, object xor error, nil-receiver agreement, sanity of every distinct object left behind by a failed decode), all byte strings <=5/6 over a 12-byte alphabet, 1 MiB inputs, observers on nil/fresh objects, single-field resets",
+add("C12", "model_checking", "explicit-state model checking of all six decoders for totality (no panic, object xor error, nil-receiver agreement, sanity of every distinct object left behind by a failed decode), all byte strings <=5/6 over a 12-byte alphabet, 1 MiB inputs, observers on nil/fresh objects, single-field resets, objects filled through accessors or field assignment for every base vector, second decodes on used decoders; a Go runtime fatal error inside the library under the check's worker pool is a violation",
     "Totality over 'any string' rests on the closure of the decoder graphs (every transition of every expanded state executed) plus exhaustive short byte strings; receiver states are enumerated as nil, fresh, every distinct failed-decode state reached, and decoded objects with each field reset.",
     GRAPH_NOTE + "IsEmpty() on a nil v2 receiver is outside the property's operation list.", "5.2, 5.3, 6 (C12)", "GRAPH")
 
@@ -73,22 +73,22 @@ ENGINES.append({"name": "TABLES", "path": "mc/cmd/cvssmc/tables.go, names.go, re
 add("C15", "model_checking", "explicit-state search over operation histories on live objects (depth 3/4) with state key = object dump + all package-level variables, successors by replay on the real code, differential invariants I1-I3; plus all processing orders of colliding vectors; plus exhaustive enumeration of map iteration orders as an environment choice (instrumented build: every range over a map asks the explorer for its order; every single range event of every catalogue operation deviates in turn, complete score domains under 24 uniform order policies)",
     "Every sequence of queries, single-field mutations and unrelated decodes up to the depth bound is executed from every start object (decoded, failed, fresh, nil); merging only on identical complete state (object + every package-level variable), so a hidden memo or shared table adds states instead of being missed.",
     "Trusted: reflective dump of objects and of the package-level variables of every non-main package of the current tree, enumerated by go/parser (mc/cmd/gendump). No expected values are assumed: results are compared between histories, between map iteration orders and with a pristine child process. If the instrumented build cannot be produced for a changed tree the map-order phase is skipped and says so.", "5.3, 6 (C15), 10.4", "HIST+SCHED(instrumenter)")
-add("C17", "exploration", "deviation-bounded exhaustive enumeration: every vector within 2 (quick) / 3 (thorough) metric changes of 4 background vectors x 9 language settings x 3 report levels, every exported report field compared with a hand-wired oracle",
+add("C17", "exploration", "deviation-bounded exhaustive enumeration: every vector within 2 (quick) / 3 (thorough) metric changes of 4 background vectors x 9 language settings x 3 report levels, every exported report field compared with a hand-wired oracle; every list of 1-3 language options, caller-owned option slices, 45 languages in one process",
     "Field wiring is per field, so two deviations already separate any two metrics; the field list is enumerated by reflection so that an uncovered field is an infrastructure error rather than silently skipped.",
     "Trusted: the field->metric wiring table in mc/cmd/cvssmc/reports.go, names.* as oracle for display names (C18), the exact score oracle.", "6 (C17)", "TABLES")
-add("C18", "exploration", "complete enumeration of the finite name table: all 52 exported functions x all enumeration values (defined, zero, out-of-range) x 91 language tags",
+add("C18", "exploration", "complete enumeration of the finite name table: all 52 exported functions x all enumeration values (defined, zero, out-of-range) x 9,035 language tags, plus the language fallback through report option lists",
     "The domain is finite and enumerated completely; the function list is checked against a parse of the package.",
     "Trusted: the function table in mc/cmd/cvssmc/names.go; regional en-*/ja-* variants are unspecified by the property and unchecked.", "6 (C18)", "TABLES")
-add("C19", "fault_enumeration", "bounded-exhaustive enumeration of template programs (all sequences of <=3/4 atoms over a 34-atom grammar) x 6 reports against text/template as reference, plus enumeration of every read-failure position and reader behaviour",
+add("C19", "fault_enumeration", "bounded-exhaustive enumeration of template programs (all sequences of <=3/4 atoms over a 39-atom grammar, a catalogue of 40 larger programs) x 6 reports against text/template as reference, plus enumeration of every read-failure position and reader behaviour, templates across every buffer boundary 256..65536, readers drained after up to 70 further exports",
     "All programs up to the size bound, valid and invalid, and every failure position k<=len of the template reader; the oracle is the property's own definition (Go's text/template on the same value).",
     "Trusted: Go's text/template as reference. Typed-nil readers are outside the property.", "5.5, 6 (C19)", "TMPL")
-add("C20", "exploration", "complete enumeration of finite tables: 36 metrics + 2 version parsers x (all codes, all strings of length <=3 over A-Z0-9 as non-codes, all enumeration integers, all weight contexts)",
+add("C20", "exploration", "complete enumeration of finite tables: 36 metrics + 2 version parsers x (all codes, all strings of length <=3 over A-Z0-9, joined, padded, full-width and look-alike variants of every code as non-codes, all enumeration integers, all weight contexts)",
     "Finite tables enumerated completely against the second transcription of the specification.",
     ENUM_NOTE, "6 (C20)", "TABLES")
 
 ENGINES.append({"name": "SCHED", "path": "sched/instr (AST rewriter), sched/verifsched (controlled scheduler + sync/atomic shims), mc/cmd/sched (explorer), mc/cmd/racepass, mc/internal/scen",
      "serves_properties": ["C16"],
      "kind_free_text": "stateless depth-first enumeration of all schedules of small closed drivers up to a preemption bound (iterative context bounding) on the real code, instrumented at check time with a scheduling point before every statement that can touch shared state; plus a free-running -race pass (DESIGN.md 5.4)"})
-add("C16", "model_checking", "stateless model checking of the real code under a controlled scheduler: all schedules of 489 two-/three-thread scenarios up to preemption bound 1/2 (iterative context bounding, static partial-order reduction of local-only statements), results compared with the sequential run; plus a separate free-running race-detector pass",
-    "Every schedule with at most 1 preemption for every pair of the 20-operation catalogue (shared and distinct receivers), six mixed 3-thread scenarios and every multiset of three short queries on one shared object, at most 2 preemptions for short operations (quick) / all scenarios (thorough); determinism of replay is checked on every scenario.",
+add("C16", "model_checking", "stateless model checking of the real code under a controlled scheduler: all schedules of 494 two-/three-thread scenarios up to preemption bound 1/2 (iterative context bounding, static partial-order reduction of local-only statements), results compared with the sequential run; plus a separate free-running race-detector pass",
+    "Every schedule with at most 1 preemption for every pair of the 20-operation catalogue (shared and distinct receivers), six mixed 3-thread scenarios, every multiset of three short queries on one shared object and five bulk scenarios (20 operations in one thread against one in the other, export readers drained after a driver pause), at most 2 preemptions for short operations (quick) / all scenarios (thorough); determinism of replay is checked on every scenario.",
     "Assumes statement-level atomicity and sequential consistency; code outside the library packages is atomic between scheduling points; the race detector pass is sampling, not exhaustive. If the instrumented build cannot be produced for a changed tree the check degrades to the race pass alone and says so.", "5.4, 6 (C16)", "SCHED")
